@@ -51,6 +51,7 @@ type Ctx struct {
 	firstClass string
 	lastFail   *Scenario
 	replaying  bool
+	enumCache  map[string]*enumResult
 	// Known findings (never written at run time)
 	Known []KnownFinding
 }
